@@ -249,6 +249,17 @@ static void one_case(int iface, int transport, int version, int doc_alg, uint64_
 			if (state == KSI_ASYNC_STATE_RESPONSE_RECEIVED) {
 				sig = NULL;
 				res = KSI_AsyncHandle_getSignature(out, &sig);
+				if (res == KSI_OK && sig != NULL) {
+					/* asking the completed handle again gives the same signature */
+					KSI_Signature *again = NULL;
+					unsigned char *r1 = NULL, *r2 = NULL;
+					size_t n1 = 0, n2 = 0;
+					int ra = KSI_AsyncHandle_getSignature(out, &again);
+					vf_count("impl_calls", 1);
+					if (ra != KSI_OK || again == NULL || KSI_Signature_serialize(sig, &r1, &n1) != KSI_OK || KSI_Signature_serialize(again, &r2, &n2) != KSI_OK || n1 != n2 || memcmp(r1, r2, n1) != 0)
+						vf_fail("second-signature-differs", "async: the second KSI_AsyncHandle_getSignature on the completed handle gives 0x%x and %zu bytes, the first gave %zu bytes (requested level %llu)", ra, n2, n1, (unsigned long long)lv);
+					KSI_free(r1); KSI_free(r2); KSI_Signature_free(again);
+				}
 			} else {
 				res = err ? err : KSI_UNKNOWN_ERROR;
 			}
